@@ -319,12 +319,34 @@ theorem overrideMod_globals (st : St) (tm : Id) (a : Name) (v : Option Id) :
 
 /-! ## module-path resolution -/
 
-theorem resolveImpl_short (st : St) (m : Id) (mp : List Name) (h : mp.length ≤ 1) :
+/-- the cursor loop of the repaired `resolveModule` IS the descending resolution, from every
+    starting module and for paths of every length (induction on the path) -/
+theorem resolveLoop_eq_spec (st : St) (cur : Id) (mp : List Name) :
+    resolveLoop st cur mp = resolveSpec st cur mp := by
+  induction mp generalizing cur with
+  | nil => rfl
+  | cons n ns ih =>
+    simp only [resolveLoop, resolveSpec]
+    cases memberModule st cur n with
+    | none => rfl
+    | some x => exact ih x
+
+/-- `resolveModule` as it is resolves every module path — of ANY depth — the way the property
+    demands -/
+theorem resolveImpl_eq_spec (st : St) (m : Id) (mp : List Name) :
     resolveImpl st m mp = resolveSpec st m mp := by
+  cases mp with
+  | nil => rfl
+  | cons n ns => exact resolveLoop_eq_spec st m (n :: ns)
+
+/-- HISTORICAL: the pre-fix resolver agreed with the descending resolution on paths with at
+    most one component (which is why only names `a.b.c.f` and deeper showed the defect) -/
+theorem preFixResolve_short (st : St) (m : Id) (mp : List Name) (h : mp.length ≤ 1) :
+    preFixResolve st m mp = resolveSpec st m mp := by
   match mp, h with
   | [], _ => rfl
   | [n], _ =>
-    simp only [resolveImpl, resolveLoop, resolveSpec]
+    simp only [preFixResolve, preFixResolveLoop, resolveSpec]
 
 theorem splitLast_length {l : List Name} {mp : List Name} {last : Name}
     (h : splitLast l = some (mp, last)) : l.length = mp.length + 1 := by
@@ -512,19 +534,6 @@ theorem splitLast_ne_nil {attr mp : List Name} {last : Name} (h : splitLast attr
   intro h0
   subst h0
   cases h
-
-theorem resolveLoop_some (st : St) (m : Id) (ns : List Name) (r : Option Id) (tm : Id)
-    (h : resolveLoop st m ns r = some tm) : r = some tm ∨ ∃ n, memberModule st m n = some tm := by
-  induction ns generalizing r with
-  | nil => exact Or.inl h
-  | cons n ns ih =>
-    unfold resolveLoop at h
-    split at h
-    · rename_i x hx
-      rcases ih (some x) h with h1 | h1
-      · cases h1; exact Or.inr ⟨n, hx⟩
-      · exact Or.inr h1
-    · cases h
 
 theorem memberModule_edge (st : St) (m : Id) (n : Name) (x : Id) (h : memberModule st m n = some x) :
     ∃ e ∈ graphOf st, e.src = m ∧ e.dst = x := by
@@ -874,5 +883,21 @@ theorem build_copy (w : World) (b : Build) :
   simp only [HCfg.setGlobals, HCfg.globals, ownGlobals, initFrom, applyOpts]
   congr 1
   exact initCfg_globals_indep _ _ _ _ _ _ _
+
+/-- the module a path resolves to (descending) is joined to the starting module by a path of
+    member edges — one edge per component -/
+theorem resolveSpec_path (st : St) (m : Id) (mp : List Name) (tm : Id)
+    (h : resolveSpec st m mp = some tm) : ∃ p : List Id, IsPath (graphOf st) m p tm := by
+  induction mp generalizing m with
+  | nil =>
+    simp only [resolveSpec, Option.some.injEq] at h
+    exact ⟨[], h⟩
+  | cons n ns ih =>
+    simp only [resolveSpec] at h
+    split at h
+    · rename_i x hx
+      obtain ⟨p, hp⟩ := ih x h
+      exact ⟨x :: p, memberModule_edge st m n x hx, hp⟩
+    · cases h
 
 end Risor.C11
